@@ -580,8 +580,8 @@ impl Monitor for M {
             Phase::new("enum", gen::enum_total())
                 .batch(64)
                 .exhaustive("every lig/kern program of <=2 rules from {|,a,b,x,-}x{a,b,-,|}x{kern,8 LIG forms inserting x}, every word of 2-4 letters over {a,b}, every set of hyphen positions, minimums (1,1)"),
-            Phase::new("cmr10", tier.pick(30_000, 1_000_000)).batch(64),
-            Phase::new("synthetic", tier.pick(60_000, 2_000_000)).batch(64),
+            Phase::new("cmr10", tier.pick(300_000, 6_000_000)).batch(64),
+            Phase::new("synthetic", tier.pick(600_000, 12_000_000)).batch(64),
         ]
     }
 
@@ -609,8 +609,26 @@ impl Monitor for M {
                 Ok(cases) => {
                     if let Some(u) = cases.get(idx as usize) {
                         let spec = unit_spec(u);
-                        if run_and_report(&spec, obs).is_some() {
+                        if let Some(out) = run_and_report(&spec, obs) {
                             obs.count("unit_cases_run");
+                            // golden: the list real TeX produced for this case (the test compares
+                            // list[2..] of "x <word>" exactly; here the list also has the 2-node tail)
+                            match boxworks::lang::parse_horizontal_list(&u.want) {
+                                Ok(want) => {
+                                    let want: Vec<N> = want.iter().map(N::from_h).collect();
+                                    let got = &out.after[2..out.after.len() - 2];
+                                    if got == &want[..] {
+                                        obs.count("unit_cases_equal_to_TeX_golden");
+                                    } else {
+                                        obs.violation(
+                                            "unit-case-differs-from-TeX-golden",
+                                            json!({"unit_test": u.name, "case": spec.json(),
+                                                "got": show_list(got), "TeX": show_list(&want)}),
+                                        );
+                                    }
+                                }
+                                Err(_) => obs.inconclusive(format!("unit case {}: cannot parse want", u.name)),
+                            }
                         }
                     }
                 }
